@@ -3,6 +3,8 @@
 #include "model.hh"
 #include "read_arpa.hh"
 
+#include <algorithm>
+
 namespace lm {
 namespace ngram {
 
@@ -20,7 +22,8 @@ template <class Model> LowerRestBuild<Model>::LowerRestBuild(const Config &confi
     ReadARPACounts(uni, number);
     UTIL_THROW_IF(number.size() != 1, FormatLoadException, "Expected the unigram model to have order 1, not " << number.size());
     ReadNGramHeader(uni, 1);
-    unigrams_.resize(number[0]);
+    // Indexed by the main model's word ids: these include <unk> even when neither file lists it.
+    unigrams_.resize(std::max<uint64_t>(number[0], vocab.Bound()));
     unigrams_[0] = config.unknown_missing_logprob;
     PositiveProbWarn warn;
     for (uint64_t i = 0; i < number[0]; ++i) {
